@@ -258,6 +258,28 @@ func stressors(r *evid.Run) {
 			}
 		}
 	}
+	// single-position look-alikes: for base strings of several lengths above and below every length class of a
+	// string cache (<=8, <=16, longer), every variant that differs from the base in exactly one position, all in
+	// one document in two orders, as values and as names (a cache that compares only part of a candidate, or
+	// hashes only some positions, confuses some pair)
+	for _, L := range []int{7, 8, 9, 15, 16, 17, 18, 23, 24, 25, 31, 32, 33, 40, 64, 65} {
+		base := []byte(strings.Repeat("user0000/profile/img0000/", 4)[:L])
+		vars := []string{string(base)}
+		for i := 0; i < L; i++ {
+			for _, c := range []byte{'#', base[i] ^ 1} {
+				v := append([]byte(nil), base...)
+				v[i] = c
+				vars = append(vars, string(v))
+			}
+		}
+		var q, qr, mem []string
+		for i, v := range vars {
+			q = append(q, fmt.Sprintf("%q", v))
+			qr = append([]string{fmt.Sprintf("%q", v)}, qr...)
+			mem = append(mem, fmt.Sprintf("%q:%q", v, vars[len(vars)-1-i]))
+		}
+		docs = append(docs, "["+strings.Join(q, ",")+","+strings.Join(qr, ",")+"]", "{"+strings.Join(mem, ",")+"}")
+	}
 	// all 400 two-byte strings over a 20-byte alphabet, two orders (pigeonhole: collisions in any 256-slot cache)
 	alpha := "abcdefghijklmnopqrst"
 	var fwd, rev []string
